@@ -439,7 +439,18 @@ def gen_value_case(r, idx):
         return min(hi, max(lo, x + r.pick([-1, 0, 0, 1])))
 
     for _ in range(6):
-        k = r.below(12)
+        k = r.below(13)
+        if k == 12:
+            # a glyph made from a pointer into text: a character, then whatever follows it
+            g = wf_glyph(r)
+            while g[0] != 18:
+                g = wf_glyph(r)
+            ch = [b for b in g[1:] if b] or [g[1]]
+            if g[1] < 0x80:
+                ch = [g[1]]
+            rest = r.pick([[], [0x31], [0x41, 0x42], [0xC3, 0xA9], [0xE2, 0x82, 0xAC], [0xA9], [0xBF, 0xBF], [0x7F], [0x20]])
+            lines.append("V gptr " + hexs([b for b in ch if b] + [b for b in rest]))
+            continue
         if k == 0:
             a = wild_glyph(r)
             b = a if r.chance(1, 3) else (a[0], a[1], r.below(256), r.below(256)) if r.chance(1, 2) else wild_glyph(r)
